@@ -185,6 +185,69 @@ pub fn d1() -> bool {
     ab || b
 }
 
+/// C17 / useful peers: for every list length K in 0..=5 and every choice of the registered peer
+/// (a new one, or the one stored at position j), plus long runs over 7 peers, the list read back
+/// must equal the MRU model (most recent first, no duplicates, at most five); registering for an
+/// unknown document must fail.
+pub fn c17() -> bool {
+    fn reg(store: &mut Store, model: &mut Vec<[u8; 32]>, id: iroh_docs::NamespaceId, p: [u8; 32]) {
+        store.register_useful_peer(id, p).unwrap();
+        // the store orders by wall-clock nanoseconds: make consecutive registrations distinguishable
+        std::thread::sleep(std::time::Duration::from_micros(2));
+        model.retain(|x| *x != p);
+        model.insert(0, p);
+        model.truncate(5);
+    }
+    let mut bad = false;
+    let mut unknown = Store::memory();
+    if unknown.register_useful_peer(NamespaceSecret::from_bytes(&[9u8; 32]).id(), [1u8; 32]).is_ok() {
+        eprintln!("c17: registering a peer for an unknown document succeeded");
+        bad = true;
+    }
+    let mut case = 0u8;
+    for k in 0..=5usize {
+        for j in 0..=k {
+            case += 1;
+            let mut store = Store::memory();
+            let ns = NamespaceSecret::from_bytes(&[case; 32]);
+            let id = ns.id();
+            let _ = store.new_replica(ns).unwrap();
+            store.close_replica(id);
+            let mut model = vec![];
+            for i in 0..k {
+                reg(&mut store, &mut model, id, [10 + i as u8; 32]);
+            }
+            // j < k: re-register the peer stored at position j (oldest = 0); j == k: a new peer
+            let p = if j < k { [10 + j as u8; 32] } else { [99u8; 32] };
+            reg(&mut store, &mut model, id, p);
+            let got: Vec<[u8; 32]> = store.get_sync_peers(&id).unwrap().map(|it| it.collect()).unwrap_or_default();
+            if got != model {
+                eprintln!("c17[k={k}, j={j}]: stored {:?}, MRU model {:?}", got.iter().map(|p| p[0]).collect::<Vec<_>>(), model.iter().map(|p| p[0]).collect::<Vec<_>>());
+                bad = true;
+            }
+        }
+    }
+    // a longer pseudo-random history over 7 peers
+    let mut store = Store::memory();
+    let ns = NamespaceSecret::from_bytes(&[200u8; 32]);
+    let id = ns.id();
+    let _ = store.new_replica(ns).unwrap();
+    store.close_replica(id);
+    let mut model = vec![];
+    let mut x = 12345u32;
+    for step in 0..200 {
+        x = x.wrapping_mul(1664525).wrapping_add(1013904223);
+        reg(&mut store, &mut model, id, [((x >> 16) % 7) as u8; 32]);
+        let got: Vec<[u8; 32]> = store.get_sync_peers(&id).unwrap().map(|it| it.collect()).unwrap_or_default();
+        if got != model {
+            eprintln!("c17[history step {step}]: stored {:?}, MRU model {:?}", got.iter().map(|p| p[0]).collect::<Vec<_>>(), model.iter().map(|p| p[0]).collect::<Vec<_>>());
+            bad = true;
+            break;
+        }
+    }
+    bad
+}
+
 pub fn run(id: &str) -> Option<bool> {
     Some(match id {
         "d2" => d2(),
@@ -192,6 +255,7 @@ pub fn run(id: &str) -> Option<bool> {
         "d7" => d7(),
         "d4" => d4(),
         "d1" => d1(),
+        "c17" => c17(),
         other => return iroh_docs::verif_incrate::witness::run(other),
     })
 }
